@@ -24,7 +24,8 @@ Required (statement of C17):
 footnote part.  Generated: definition/reference patterns -- ids (digits, words, with spaces, `:`, non-ASCII, case variants),
 repeated references, references inside emphasis / link text / headings / quotes / lists / other footnote bodies / its
 own body, undefined references, multi-paragraph bodies, bodies ending in code or a list, redefinition of an id, the
-place marker; options UNIQUE_IDS, SEPARATOR; two documents in a row on one instance.
+place marker; options UNIQUE_IDS, SEPARATOR; two documents in a row on one instance; two live instances (both constructed,
+the other one converts a document with labels from the same pool first, then a fresh one converts the checked document).
 Required:
   F1 every `<sup><a class="footnote-ref" href="#X">` targets an existing `<li id="X">` of the footnote list; sup ids
      are pairwise distinct;
@@ -225,6 +226,19 @@ def check_toc(src, cfg, explicit, md=None):
 
 
 # ------------------------------------------------------------------------------------------------ footnote check
+def check_fn_live(src, cfg, other):
+    """two live instances: both are constructed, the other one converts its document, then a FRESH instance of `cfg` converts `src`
+    (without reset(): it has converted nothing) and its output is checked"""
+    a = _mk(other['config']); b = _mk(cfg)
+    try:
+        with time_limit(10): a.convert(other['src'])
+    except ConversionTimeout:
+        raise
+    except Exception:
+        pass            # what the other document does to its own instance is not the point here
+    return check_fn(src, cfg, b, reset=False)
+
+
 def check_fn(src, cfg, md=None, reset=True):
     probs = []; info = {}
     md = md or _mk(cfg)
@@ -523,24 +537,37 @@ def search(driver, rng, n):
         md = inst(cfg)
         prev = gen_fn_doc(rng)[0] if rng.random() < 0.15 else None
         twice = prev is not None
+        # TWO LIVE INSTANCES (15 %): two fresh instances are constructed first, the OTHER one converts a document (footnote labels come
+        # from a small pool, so the two documents share labels), then THIS fresh instance converts `src` (no reset() in between: a fresh
+        # instance needs none).  The relations F1-F3 are required of every conversion, whatever other instances exist or did before.
+        live = None
+        if not twice and rng.random() < 0.15:
+            osrc, ocfg, _ = gen_fn_doc(rng)
+            if rng.random() < 0.5:      # the same source under the other output format (one instance per format): every label is shared
+                osrc, ocfg = src, dict(cfg, fmt='html' if cfg.get('fmt', 'xhtml') == 'xhtml' else 'xhtml')
+            live = {'src': osrc, 'config': ocfg}
         try:
             if twice:
                 md.reset(); md.convert(prev)     # a previous document on the same instance
-            probs, info = check_fn(src, cfg, md)
+            if live is not None:
+                probs, info = check_fn_live(src, cfg, live)
+                bump('fn_two_live_instances')
+            else:
+                probs, info = check_fn(src, cfg, md)
         except RecursionError:
             bump('recursion_skip'); continue
         except Exception as e:
             if isinstance(e, ConversionTimeout): bump('timeouts')
             viol.append(_viol('fn', src, cfg, 'EXC', 'conversion raised %s: %s' % (type(e).__name__, e), 'an output with ids and links',
                               'F-C17-5' if (isinstance(e, RuntimeError) and 'mutated during iteration' in str(e) and _NESTED_FNDEF.search(src)) else None,
-                              {'previous': prev})); mds.clear(); continue
+                              {'previous': prev, 'live_other': live})); mds.clear(); continue
         if 'unreadable' in info: bump('fn_unreadable'); bump('fn_unreadable: ' + info['unreadable'][:40]); continue
         bump('fn_docs'); bump('fn_refs', info['refs']); bump('fn_notes', info['notes'])
         if twice: bump('fn_second_doc_on_instance')
         for t in tags: bump('fn_built_in_region_' + t)
         if info['refs']: seen.add((src, repr(cfg)))
         for code, obs, req, region in probs:
-            viol.append(_viol('fn', src, cfg, code, obs, req, _fn_region_tag(src, region, tags), {'previous': prev}))
+            viol.append(_viol('fn', src, cfg, code, obs, req, _fn_region_tag(src, region, tags), {'previous': prev, 'live_other': live}))
         if len(samples) < 4 and info['refs'] >= 3: samples.append({'kind': 'fn', 'src': src, 'config': cfg})
         # with toc alongside: the toc relations must hold too (ids of sups/lis are "ids assigned elsewhere")
         if cfg.get('toc') is not None:
@@ -556,8 +583,8 @@ def search(driver, rng, n):
 
 
 def _fails(kind, src, cfg, explicit=None):
-    prev = cfg.get('previous')
-    cfg = {k: v for k, v in cfg.items() if k not in ('kind', 'explicit', 'previous')}
+    prev = cfg.get('previous'); live = cfg.get('live_other')
+    cfg = {k: v for k, v in cfg.items() if k not in ('kind', 'explicit', 'previous', 'live_other')}
     if kind == 'nest':
         from markdown.extensions.toc import nest_toc_tokens
         got = []; _flatten_tokens(nest_toc_tokens([{'level': l, 'id': str(i)} for i, l in enumerate(src)]), -1, got)
@@ -568,6 +595,7 @@ def _fails(kind, src, cfg, explicit=None):
             cfg.setdefault('toc', {})
             return bool(check_toc(src, cfg, explicit)[0])
         cfg.setdefault('footnotes', {})
+        if live: return bool(check_fn_live(src, cfg, live)[0])
         md = _mk(cfg)
         if prev is not None: md.convert(prev)
         return bool(check_fn(src, cfg, md)[0])
